@@ -5,25 +5,18 @@ Import ListNotations.
 From Verif.C07 Require Import Model Proofs ProofsDense ProofsLib ProofsLen ProofsOps ProofsSet ProofsHist ProofsCount.
 Local Open Scope N_scope.
 
-(* 1. goja's _defineOwnProperty decision tree (as repaired by 7dd46dd/8a03683) equals
+(* 1. goja's _defineOwnProperty decision tree (as repaired by 7dd46dd/8a03683/4561dbf) equals
       ValidateAndApplyPropertyDescriptor for EVERY extensible flag, every existing property (absent, bare value,
-      valueProperty without stale fields) and every well-formed partial descriptor — kind conversions included. *)
+      valueProperty without stale fields) and every well-formed partial descriptor — kind conversions included —
+      and it never leaves stale fields behind. *)
 Theorem define_refines_spec : forall ext ex d,
   desc_wf d = true -> oclean ex = true ->
   option_map absE (goja_define ext ex d) = spec_define ext (option_map absE ex) d.
 Proof. exact ProofsDefine.define_refines_spec. Qed.
 
-(* ... and leaves no stale fields unless it converts the kind of the property; the configurable conversions still
-   do (open findings C07-N1/N2/N3) *)
-Theorem define_clean_partial : forall ext ex d,
-  desc_wf d = true -> oclean ex = true -> no_kind_change ex d = true ->
-  oclean (goja_define ext ex d) = true.
-Proof. exact ProofsDefine.define_clean_partial. Qed.
-
-Theorem define_stale_refuted :
-  exists ex d, oclean ex = true /\ desc_wf d = true /\ no_kind_change ex d = false /\
-               oclean (goja_define true ex d) = false.
-Proof. exact ProofsDefine.define_stale_refuted. Qed.
+Theorem define_clean : forall ext ex d,
+  desc_wf d = true -> oclean ex = true -> oclean (goja_define ext ex d) = true.
+Proof. exact ProofsDefine.define_clean. Qed.
 
 (* 2. Each storage refines S, operation by operation, for EVERY state satisfying the storage invariant and every
       argument, through every storage transition ([expand] in both directions happens inside set/define), and the
@@ -81,30 +74,22 @@ Theorem dense_set_refines : forall d k v, InvDn d -> k < MAXIDX ->
   InvA (fst (d_setOwnIdx d k v)).
 Proof. exact ProofsSet.dense_set_refines. Qed.
 
-(* 2e. index [[DefineOwnProperty]]: the result and the abstract state equal S's for EVERY well-formed descriptor
-      (kind conversions included); the invariant is preserved outside the regions of the open findings: a kind
-      conversion leaves stale fields (C07-N1..N3), and a define that switches the storage does not count a new
-      valueProperty (C07-N6, see pvc_undercount_refuted) *)
+(* 2e. index [[DefineOwnProperty]], for EVERY well-formed descriptor (kind conversions included) and through both
+      storage switches; no side conditions remain (fixes 4561dbf, 8dbb372) *)
 Theorem sparse_define_refines : forall s k dsc, InvSp s -> k < MAXIDX -> desc_wf dsc = true ->
   s_define (absS s) k dsc = (absA (fst (sp_defineIdx s k dsc)), snd (sp_defineIdx s k dsc)) /\
-  (no_kind_change (alookup (sa_items s) k) dsc = true ->
-   (forall p d, goja_define (b_ext (sa_base s)) (alookup (sa_items s) k) dsc = Some p ->
-                fst (sp_defineIdx s k dsc) = ID d -> is_vp p = false) ->
-   InvA (fst (sp_defineIdx s k dsc))).
+  InvA (fst (sp_defineIdx s k dsc)).
 Proof. exact ProofsOps.sparse_define_refines. Qed.
 
 Theorem dense_define_refines : forall d k dsc, InvDn d -> k < MAXIDX -> desc_wf dsc = true ->
   s_define (absD d) k dsc = (absA (fst (d_defineIdx d k dsc)), snd (d_defineIdx d k dsc)) /\
-  (no_kind_change (dnth (da_values d) k) dsc = true ->
-   (forall p s, goja_define (b_ext (da_base d)) (dnth (da_values d) k) dsc = Some p ->
-                fst (d_defineIdx d k dsc) = IS s -> is_vp p = false) ->
-   InvA (fst (d_defineIdx d k dsc))).
+  InvA (fst (d_defineIdx d k dsc)).
 Proof. exact ProofsOps.dense_define_refines. Qed.
 
 (* 2g. all histories: the combined object (either storage, switching at will inside set/define) returns exactly
       S's results and denotes exactly S's array after EVERY history of indexed writes, length assignments, deletes
-      and defines whose define steps stay outside the two open-finding regions; the invariant holds throughout.
-      An array literal starts in the invariant. *)
+      and defines ([hist_ok] only asks for index keys, lengths <= 2^32-1 and well-formed descriptors); the invariant
+      holds throughout.  An array literal starts in the invariant. *)
 Theorem history_refines : forall ops a, InvA a -> hist_ok a ops ->
   s_run (absA a) ops = (absA (fst (i_run a ops)), snd (i_run a ops)) /\ InvA (fst (i_run a ops)).
 Proof. exact ProofsHist.history_refines. Qed.
@@ -113,23 +98,26 @@ Theorem init_inv : forall vs, (forall x, In (Some x) vs -> exists v, x = IPlain 
   InvA (ID (mkDA vs (nlen vs) (count_present vs) 0 true (mkB true [] []))).
 Proof. exact ProofsHist.init_inv. Qed.
 
-(* 2h. the bookkeeping counters (objCount = number of present slots, propValueCount = number of valueProperties) are
-      exact for the operations that maintain them correctly after fix d2f8653: write / define / delete on an existing
-      slot; propValueCount also under truncation.  objCount under truncation: counters_truncate_refuted (C07-N5). *)
+(* 2h. the bookkeeping counters (objCount = number of present slots, propValueCount = number of valueProperties) that
+      gate the fast paths are EXACT after every dense operation, including truncation (57195f1) and both outcomes of
+      expand (8dbb372); in the sparse storage propValueCount is exact under delete and truncation *)
 Theorem dense_delete_counters : forall d k, ExactD d -> ExactD (fst (d_deleteIdx d k)).
 Proof. exact ProofsCount.dense_delete_counters. Qed.
 
-Theorem dense_set_counters : forall d k v, ExactD d -> k < nlen (da_values d) -> nlen (da_values d) <= da_length d ->
-  match fst (d_setOwnIdx d k v) with ID d' => ExactD d' | IS _ => False end.
-Proof. exact ProofsCount.dense_set_counters. Qed.
+Theorem dense_setlength_counters : forall d l, InvDn d -> ExactD d -> ExactD (fst (d_setLength d l)).
+Proof. exact ProofsCount.dense_setlength_counters. Qed.
 
-Theorem dense_define_counters : forall d k dsc, ExactD d -> k < nlen (da_values d) -> nlen (da_values d) <= da_length d ->
-  match fst (d_defineIdx d k dsc) with ID d' => ExactD d' | IS _ => False end.
-Proof. exact ProofsCount.dense_define_counters. Qed.
+Theorem dense_set_counters : forall d k v, InvDn d -> ExactD d -> ExactA (fst (d_setOwnIdx d k v)).
+Proof. exact ProofsCount.dense_set_counters_all. Qed.
 
-Theorem dense_setlength_pvc : forall d l, InvDn d -> da_pvc d = count_vp (da_values d) ->
-  da_pvc (fst (d_setLength d l)) = count_vp (da_values (fst (d_setLength d l))).
-Proof. exact ProofsCount.dense_setlength_pvc. Qed.
+Theorem dense_define_counters : forall d k dsc, InvDn d -> ExactD d -> ExactA (fst (d_defineIdx d k dsc)).
+Proof. exact ProofsCount.dense_define_counters_all. Qed.
+
+Theorem sparse_delete_counters : forall s k, ascg 0 (sa_items s) -> ExactA (IS s) -> ExactA (IS (fst (sp_deleteIdx s k))).
+Proof. exact ProofsCount.sparse_delete_counters. Qed.
+
+Theorem sparse_setlength_counters : forall s l, InvSp s -> ExactA (IS s) -> ExactA (IS (fst (sp_setLength s l))).
+Proof. exact ProofsCount.sparse_setlength_counters. Qed.
 
 (* 3. switching the storage strategy, in either direction, never changes the abstract array *)
 Theorem transition_invisible :
@@ -149,21 +137,6 @@ Theorem setlength_nonconfigurable_tail : forall r n, desc_sorted r ->
                    (forall k e', In (k, e') r -> p < k -> el_conf e' = true).
 Proof. exact Proofs.del_down_spec. Qed.
 
-(* 5. the open defects of the storages, each exhibited by evaluation on an explicit state *)
-Theorem counters_truncate_refuted :  (* N5 *)
-  counters_ok f5_state = true /\ counters_ok (fst (d_setLength f5_state 2)) = false.
-Proof. exact Proofs.counters_truncate_refuted. Qed.
-
-Theorem export_refuted : d_guard f3_state = true /\ d_export f3_state <> s_export (absD f3_state).
-Proof. exact Proofs.export_refuted. Qed.
-
-Theorem pvc_undercount_refuted :     (* N6 *)
-  match fst (d_defineIdx n6_state 5000 (mkD (Some 1) None None None None (Some false))) with
-  | IS s => sa_pvc s = 0%Z /\ count_vp_items (sa_items s) = 1%Z /\
-            absS (fst (sp_setLength s 0)) <> fst (s_array_set_length (absS s) 0)
-  | _ => False end.
-Proof. exact Proofs.pvc_undercount_refuted. Qed.
-
 (* 6. the verified sort validator: acceptance implies a permutation, and — whenever the recorded comparator is a
       total preorder on the elements — a sorted and stable one; arrays additionally have the shape of 23.1.3.30 *)
 Theorem check_sort_sound : forall cmp i o, check_sort cmp i o = true ->
@@ -179,8 +152,7 @@ Theorem check_sort_array_sound : forall cmp i o, check_sort_array cmp i o = true
 Proof. exact Proofs.check_sort_array_sound. Qed.
 
 Print Assumptions define_refines_spec.
-Print Assumptions define_clean_partial.
-Print Assumptions define_stale_refuted.
+Print Assumptions define_clean.
 Print Assumptions sparse_reads_refine.
 Print Assumptions dense_reads_refine.
 Print Assumptions sparse_setlength_refines.
@@ -194,13 +166,12 @@ Print Assumptions dense_define_refines.
 Print Assumptions history_refines.
 Print Assumptions init_inv.
 Print Assumptions dense_delete_counters.
+Print Assumptions dense_setlength_counters.
 Print Assumptions dense_set_counters.
 Print Assumptions dense_define_counters.
-Print Assumptions dense_setlength_pvc.
+Print Assumptions sparse_delete_counters.
+Print Assumptions sparse_setlength_counters.
 Print Assumptions transition_invisible.
 Print Assumptions setlength_nonconfigurable_tail.
-Print Assumptions counters_truncate_refuted.
-Print Assumptions export_refuted.
-Print Assumptions pvc_undercount_refuted.
 Print Assumptions check_sort_sound.
 Print Assumptions check_sort_array_sound.
